@@ -45,7 +45,8 @@ fk: "FOREIGN"i "KEY"i "(" NAME ")" "REFERENCES"i NAME "(" NAME ")"
 create_index: "CREATE"i UNIQUE? "INDEX"i ("IF"i "NOT"i "EXISTS"i)? NAME "ON"i NAME "(" NAME ("," NAME)* ")"
 pragma: "PRAGMA"i NAME "=" NAME
 insert: "INSERT"i (OR_REPLACE)? "INTO"i NAME "(" NAME ("," NAME)* ")" "VALUES"i "(" expr ("," expr)* ")"
-update: "UPDATE"i NAME "SET"i (SETLIST | assign ("," assign)*) where?
+update: "UPDATE"i NAME "SET"i (SETLIST | assign ("," assign)*) updfrom? where?
+updfrom: "FROM"i NAME
 assign: NAME "=" expr
 delete: "DELETE"i "FROM"i NAME where?
 select: "SELECT"i selcols "FROM"i NAME NAME? where? orderby? limit?
@@ -60,7 +61,7 @@ limit: "LIMIT"i expr
 ?expr: PARAM | NUMBER | colref | func | "(" select ")" -> subselect
 colref: NAME ("." NAME)?
 UNIQUE: "UNIQUE"i
-OR_REPLACE: "OR"i /\s+/ "REPLACE"i
+OR_REPLACE: "OR"i /\s+/ ("REPLACE"i | "ROLLBACK"i | "ABORT"i | "FAIL"i | "IGNORE"i)
 BOOL: "AND"i | "OR"i
 ASC: "ASC"i
 DESC: "DESC"i
@@ -134,6 +135,7 @@ class SStmt:
         self.index_cols = []
         self.unique_index = False
         self.n_params = 0
+        self.from_table = None  # UPDATE t SET ... FROM other
         self.raw = ""
 
     def text(self):
@@ -260,8 +262,12 @@ def _build(tree):
             toks = [x for x in ch if isinstance(x, Token) and x.type == "NAME"]
             st.table = str(toks[0])
             st.columns = [str(x) for x in toks[1:]]
-            if any(isinstance(x, Token) and x.type == "OR_REPLACE" for x in ch):
-                st.or_replace = True
+            for x in ch:
+                if isinstance(x, Token) and x.type == "OR_REPLACE":
+                    act = str(x).split()[-1].upper()
+                    st.on_conflict = act
+                    if act == "REPLACE":
+                        st.or_replace = True
             vals = [x for x in ch if not (isinstance(x, Token) and x.type in ("NAME", "OR_REPLACE"))]
             st.values = [expr(v) for v in vals]
         elif t.data == "update":
@@ -271,6 +277,8 @@ def _build(tree):
                     st.setlist_dynamic = True
                 elif isinstance(c, Tree) and c.data == "assign":
                     st.sets.append((str(c.children[0]), expr(c.children[1])))
+                elif isinstance(c, Tree) and c.data == "updfrom":
+                    st.from_table = str(c.children[0])
                 elif isinstance(c, Tree) and c.data == "where":
                     where(c, st)
         elif t.data == "delete":
@@ -305,7 +313,20 @@ def _build(tree):
     return st
 
 
+TXN_RE = None
+
+
 def parse_sql(text):
+    import re
+
+    m = re.match(r"^\s*(SAVEPOINT|RELEASE|ROLLBACK|BEGIN|COMMIT|END)\b", text, re.I)
+    if m:
+        # transaction control: no rows touched; rules that care look at .verb
+        st = SStmt("txn")
+        st.verb = m.group(1).upper()
+        st.to_savepoint = bool(re.match(r"^\s*ROLLBACK\s+(TRANSACTION\s+)?TO\b", text, re.I))
+        st.raw = " ".join(text.split())
+        return st
     try:
         tree = parser().parse(text)
     except Exception as e:
@@ -536,6 +557,17 @@ def sql_sites(prog, mod_name="aw_datastore.storages.sqlite"):
     return cache[mod_name]
 
 
+def _const_prefix(e):
+    """leading constant text of an f-string / concatenation"""
+    if isinstance(e, ast.Constant) and isinstance(e.value, str):
+        return e.value
+    if isinstance(e, ast.JoinedStr) and e.values and isinstance(e.values[0], ast.Constant):
+        return str(e.values[0].value)
+    if isinstance(e, ast.BinOp) and isinstance(e.op, ast.Add):
+        return _const_prefix(e.left)
+    return None
+
+
 def _text_table(e, fi, prog):
     """TABLE[key] with TABLE a class-level / module-level dict literal whose values are all string constants -> the values"""
     if not isinstance(e, ast.Subscript):
@@ -579,6 +611,12 @@ def _sql_sites(prog, mod_name):
                     site_.from_table = True
                     sites.append(site_)
                 continue
+            if text is None:
+                pre = _const_prefix(call.args[0])
+                if pre and pre.split() and pre.split()[0].upper() in ("SAVEPOINT", "RELEASE", "ROLLBACK", "BEGIN", "COMMIT", "END"):
+                    site_ = SqlSite(fi, call, parse_sql(pre), [], False)
+                    sites.append(site_)
+                    continue
             if text is None:
                 raise AnalysisError(f"{fi.loc(call)} {fi.short}: SQL text of .{f.attr}() is not a compile-time string: {norm(call.args[0])[:80]}", fi.loc(call))
             if f.attr == "executescript":
